@@ -151,7 +151,9 @@ func runC10(r *rt.Runner) {
 			for ft := range mf.feat {
 				c.Count("feature: " + ft)
 			}
-			c.Nontrivial(x, func() string { return fmt.Sprintf("%d glyphs, container %s, mutated %v", len(f1.Glyphs), mf.lay.Container, mutated) })
+			c.Nontrivial(x, func() string {
+				return fmt.Sprintf("%d glyphs, container %s, mutated %v", len(f1.Glyphs), mf.lay.Container, mutated)
+			})
 		})
 	}
 }
